@@ -7,6 +7,8 @@ THEOREMS = [
     "GE.PA.covers",
     "GE.PA.covers_arr",
 ]
+THM_RLM = ["GE.Rlm.marking_sound", "GE.Rlm.uniq_nodup", "GE.Rlm.uniq_single", "GE.Rlm.mem_groupOrder", "GE.Rlm.groupOrder_nodup", "GE.Rlm.fresh_not_used"]
+
 THM_GUARD = [
     "GE.PA.Guard.guard_sound",
     "GE.PA.Guard.analyze_sound",
@@ -43,8 +45,12 @@ def run(chk):
                        "means 'only the marked children differ' (the meaning the framework's tree builder gives it); hoisted temporaries hold the new index / "
                        "condition values (TempsOk), scope variables come with covering trees (ScopesOk); real trees can only be more marked than the model "
                        "(inherited members read as truthy) and guards are monotone",
-                       "the list protocol of RangeListManager (TypeScript) is executed, not modelled"]
-    chk.model_tie([("GE.Thm.C06", THEOREMS), ("GE.Thm.C06Guard", THM_GUARD)])
+                       "RangeListManager (TypeScript): the key bookkeeping (updateKeys: keys made unique) and the per-item trees of `diff` are modelled "
+                       "(GE/Model/Rlm.lean, compared with the real class on random keyed lists: corr:rlm) and proved: the unique keys are pairwise distinct "
+                       "(uniq_nodup; the search for a free `key--n` never fails, by pigeonhole: fresh_not_used), keys that occur once are kept, and "
+                       "marking_sound: if the tree marks every position whose key changed, an item that is not told `true` and reuses an old node reuses the "
+                       "node of its own position (the statement finding D62 violated). The node moves (LIS, insertions, removals) are executed, not modelled"]
+    chk.model_tie([("GE.Thm.C06", THEOREMS), ("GE.Thm.C06Guard", THM_GUARD), ("GE.Thm.C06Rlm", THM_RLM)])
     rng = chk.rng.fork("c06")
     rlm_stream(chk, chk.rng.fork("rlm"), quick)
     # guard strings: model vs implementation on a sample of expressions (full stream lives in C03)
